@@ -6,6 +6,7 @@ regenerated call-site table: KinModel/Gen/ReadSites.lean).
 import KinModel.Reads
 import KinModel.Lemmas.C11
 import KinModel.Gen.ReadSites
+import KinModel.Gen.WalkSites
 namespace KinModel.Reads
 
 /-! ### first sentence: switch off -/
@@ -34,10 +35,14 @@ Full-strength statement (does NOT hold of the code as it is, see `foreign_base_w
 
     switch_on_reads_are_resolutions : ∀ (inp : Input) (fuel : Nat), AllJust inp (load inp fuel).1.log
 
-What is proved: the statement outside the exclusion class `ForeignBase` — runs in which the loader resolves
-a reference with a `documentPath` that is not the location of the document the reference was found in. -/
+What is proved: the statement outside the exclusion class `ForeignBase` — runs in which some guarded read goes to
+a location that is NOT the resolution of its reference against the location of the document the reference was found
+in (the loader used a `documentPath` that belongs to another document, and it mattered).  The class was narrowed
+twice: the raw re-read fallback no longer produces it (f972c33; regression `raw_fallback_regression`), and a
+foreign `documentPath` that yields the same location (absolute reference, same directory) is outside it. -/
 
-/-- exclusion predicate (decidable): some guarded read used a foreign base location -/
+/-- exclusion predicate (decidable): some guarded read went to a location other than the resolution of its
+    reference against its own document's location -/
 def ForeignBase (inp : Input) (fuel : Nat) : Prop := (load inp fuel).1.foreign = true
 
 instance (inp : Input) (fuel : Nat) : Decidable (ForeignBase inp fuel) := by unfold ForeignBase; infer_instance
@@ -75,6 +80,67 @@ theorem every_read_is_root_or_loaded_resolution_or_foreign (inp : Input) (fuel :
   cases h : (load inp fuel).1.foreign with
   | true => exact Or.inl rfl
   | false => exact Or.inr ((load_inv inp fuel).just h)
+
+/-! ### the caching reader (`URIMapCache`, hence `DefaultReadFromURI`) -/
+
+/-- The property is stated for the locations passed to `ReadFromURIFunc`.  When that function is
+`URIMapCache(reader)` the locations reaching the wrapped `reader` (files opened, HTTP requests sent) are a
+sub-sequence; it meets the spec whenever the full sequence does — for ANY sequence of reads, both switch settings. -/
+theorem cache_preserves_spec (inp : Input) (log : List Url) (h : Spec inp log) :
+    Spec inp (cacheFilter inp [] log) := by
+  unfold Spec at h ⊢
+  split
+  · next ha =>
+    rw [if_pos ha] at h
+    intro pre u post heq
+    have := cacheFilter_just inp log [] [] [] (by simp) (by simp)
+      (by intro s u t e; simpa using h s u t e) pre u post heq
+    simpa using this
+  · next ha =>
+    rw [if_neg ha] at h
+    intro u hu
+    exact h u (cacheFilter_sub inp log [] u hu)
+
+/-- "Is a document read at most once per location?"  Not by the loader (it reads before it consults its document
+cache, and re-reads for the raw drill: see the example with the root read twice below) — but behind `URIMapCache` a
+location that is cached (any location except a relative file path) and readable is fetched at most once, whatever the
+loader does. -/
+theorem cache_fetches_once (inp : Input) (log : List Url) (u : Url) (hc : u.cacheable = true)
+    (hs : (storeAt inp u).isSome = true) : (cacheFilter inp [] log).count u ≤ 1 :=
+  cacheFilter_once inp u hc hs log []
+
+/-- With the switch off, nothing but the root reaches the wrapped reader either. -/
+theorem switch_off_cached_reads_root_only (inp : Input) (fuel : Nat) (hoff : inp.allowed = false) :
+    ∀ u ∈ cacheFilter inp [] (load inp fuel).1.log, some u = inp.root :=
+  fun u hu => switch_off_reads_root_only inp fuel hoff u (cacheFilter_sub inp _ [] u hu)
+
+/-- the wrapped reader sees only resolutions too (outside the exclusion) -/
+theorem switch_on_cached_reads_are_resolutions_partial (inp : Input) (fuel : Nat) (h : ¬ ForeignBase inp fuel) :
+    Spec inp (cacheFilter inp [] (load inp fuel).1.log) :=
+  cache_preserves_spec inp _ (reads_meet_spec_partial inp fuel h)
+
+/-! ### uniform universes: the second sentence at full strength, no exclusion
+
+`Uniform inp` is a static, decidable condition on the file universe (not on the run): every non-'#' reference of every
+file resolves to the same location from every location of the universe — e.g. all references absolute (absolute
+paths, http(s) URLs), or all files in one directory. -/
+
+/-- On a uniform universe the exclusion class is empty. -/
+theorem uniform_never_foreign (inp : Input) (fuel : Nat) (h : Uniform inp) : ¬ ForeignBase inp fuel := by
+  unfold ForeignBase
+  rw [(load_inv inp fuel).uni h]; simp
+
+/-- Full-strength second sentence on uniform universes: every read is the root or the resolution of a reference
+found in an already-loaded document against that document's own location. -/
+theorem switch_on_reads_are_resolutions_uniform (inp : Input) (fuel : Nat) (h : Uniform inp) :
+    AllJust inp (load inp fuel).1.log :=
+  switch_on_reads_are_resolutions_partial inp fuel (uniform_never_foreign inp fuel h)
+
+/-- Both sentences, and the caching reader, on uniform universes. -/
+theorem reads_meet_spec_uniform (inp : Input) (fuel : Nat) (h : Uniform inp) :
+    Spec inp (load inp fuel).1.log ∧ Spec inp (cacheFilter inp [] (load inp fuel).1.log) :=
+  ⟨reads_meet_spec_partial inp fuel (uniform_never_foreign inp fuel h),
+   cache_preserves_spec inp _ (reads_meet_spec_partial inp fuel (uniform_never_foreign inp fuel h))⟩
 
 /-! ### the executable spec is the spec -/
 
@@ -140,21 +206,23 @@ def wholeRef (text : String) (segs : List String) : Ref := ⟨text, .whole, ⟨"
 def hashRef (frag : String) : Ref := ⟨"#" ++ frag, .internal, ⟨"", "", false, []⟩, frag, false⟩
 def fragRef (text : String) (segs : List String) (frag : String) : Ref :=
   ⟨text, .fragment, ⟨"", "", false, segs⟩, frag, false⟩
-def leafFile : File := ⟨true, [], [], [], []⟩
+def leafFile : File := { parses := true, tops := [], elems := [], typed := [], raw := [] }
+/-- an element file of one kind -/
+def elemView (k : Kind) (ns : List Node) : List (Kind × List Node) := [(k, ns)]
 
 /-- finding F-C11-1: /r/a/root.json has parameter P → "../b/p.json" and schema X → "y.json";
     /r/b/p.json is a parameter whose schema is "#/components/schemas/X". -/
 def x0 : Input :=
   { allowed := true, entry := .file, rootLoc := some (fileUrl ["r", "a", "root.json"]), rootInStore := true
     rootFile :=
-      { parses := true, elem := [], raw := []
+      { parses := true, elems := [], raw := []
         tops := [ .mk 1 .parameter (some (wholeRef "../b/p.json" ["..", "b", "p.json"])) [],
                   .mk 2 .schema (some (wholeRef "y.json" ["y.json"])) [] ]
         typed := [("/components/schemas/X", .mk 2 .schema (some (wholeRef "y.json" ["y.json"])) [])] }
     store :=
       [ (fileUrl ["r", "b", "p.json"],
           { parses := true, tops := [], typed := [], raw := []
-            elem := [ .mk 1 .schema (some (hashRef "/components/schemas/X")) [] ] }),
+            elems := elemView .parameter [ .mk 1 .schema (some (hashRef "/components/schemas/X")) [] ] }),
         (fileUrl ["r", "a", "y.json"], leafFile),
         (fileUrl ["r", "b", "y.json"], leafFile) ] }
 
@@ -169,16 +237,89 @@ theorem foreign_base_witness :
 theorem foreign_base_witness_not_spec : ¬ Spec x0 (load x0 16).1.log := by
   rw [← specB_iff]; simp [foreign_base_witness.2.2]
 
+/-- finding F-C11-1 (c): /r/a/root.json has header R → "b/d.json#/components/headers/H"; /r/a/b/d.json has header
+    H → "x.json"; /r/a/b/x.json is a header whose schema is "x.json" again.  While H is being resolved the text "x.json"
+    is in progress for a HEADER, so the schema's callback ignores the value (a04fe6c) and the schema stays unresolved;
+    the second walk of R's value, with the ROOT's location, then resolves "x.json" against /r/a/. -/
+def x3 : Input :=
+  { allowed := true, entry := .file, rootLoc := some (fileUrl ["r", "a", "root.json"]), rootInStore := true
+    rootFile :=
+      { parses := true, elems := [], raw := [], typed := []
+        tops := [ .mk 1 .header (some (fragRef "b/d.json#/components/headers/H" ["b", "d.json"] "/components/headers/H")) [] ] }
+    store :=
+      [ (fileUrl ["r", "a", "b", "d.json"],
+          { parses := true, elems := [], raw := []
+            tops := [ .mk 1 .header (some (wholeRef "x.json" ["x.json"])) [] ]
+            typed := [("/components/headers/H", .mk 1 .header (some (wholeRef "x.json" ["x.json"])) [])] }),
+        (fileUrl ["r", "a", "b", "x.json"],
+          { parses := true, tops := [], typed := [], raw := []
+            elems := elemView .header [ .mk 1 .schema (some (wholeRef "x.json" ["x.json"])) [] ] }),
+        (fileUrl ["r", "a", "x.json"], leafFile) ] }
+
+/-- The model (which agrees with the real loader on this input, corpus/C11/foreign_base_second_walk_otherkind.json)
+reads /r/a/x.json, which no loaded document refers to. -/
+theorem foreign_second_walk_witness :
+    (load x3 16).1.log = [fileUrl ["r", "a", "root.json"], fileUrl ["r", "a", "b", "d.json"],
+                          fileUrl ["r", "a", "b", "x.json"], fileUrl ["r", "a", "x.json"]] ∧
+    ForeignBase x3 16 ∧ specB x3 (load x3 16).1.log = false := by
+  decide
+
+/-- former witness of F-C11-1 (b) (corpus/C11/foreign_base_raw_fallback.json): the root's callback C has a path item
+    "../b/d.json#/paths/~1x", /r/b/d.json has no such path, the root itself has /paths/~1x with parameter "p.json". -/
+def x2 : Input :=
+  { allowed := true, entry := .file, rootLoc := some (fileUrl ["r", "a", "root.json"]), rootInStore := true
+    rootFile :=
+      { parses := true, elems := []
+        tops := [ .mk 1 .callback none [ .mk 2 .pathItem (some (fragRef "../b/d.json#/paths/~1x" ["..", "b", "d.json"] "/paths/~1x")) [] ],
+                  .mk 3 .pathItem none [ .mk 4 .parameter (some (wholeRef "p.json" ["p.json"])) [] ] ]
+        typed := [("/components/callbacks/C", .mk 1 .callback none [ .mk 2 .pathItem (some (fragRef "../b/d.json#/paths/~1x" ["..", "b", "d.json"] "/paths/~1x")) [] ]),
+                  ("/paths/~1x", .mk 3 .pathItem none [ .mk 4 .parameter (some (wholeRef "p.json" ["p.json"])) [] ])]
+        raw := [("/paths/~1x", .mk 3 .pathItem none [ .mk 4 .parameter (some (wholeRef "p.json" ["p.json"])) [] ])] }
+    store :=
+      [ (fileUrl ["r", "b", "d.json"], leafFile),
+        (fileUrl ["r", "a", "p.json"], leafFile),
+        (fileUrl ["r", "b", "p.json"], leafFile) ] }
+
+/-- Regression for the repaired sub-case (b) (fixed by f972c33): after the failed typed drill the REFERENCED document
+is read again, the fragment is not found there, the load fails; /r/b/p.json is not read, no foreign base, model = spec. -/
+theorem raw_fallback_regression :
+    (load x2 16).1.log = [fileUrl ["r", "a", "root.json"], fileUrl ["r", "b", "d.json"], fileUrl ["r", "b", "d.json"]] ∧
+    (load x2 16).2 = false ∧ ¬ ForeignBase x2 16 ∧ specB x2 (load x2 16).1.log = true := by
+  decide
+
+/-- 9b25d89: a path item whose target is itself a `$ref` path item: root /x → "b/d.json#/paths/~1x",
+    d.json /x → "../c/e.json#/paths/~1y", e.json /y has parameter "p.json" — read as /r/a/c/p.json, all bases aligned. -/
+def x4 : Input :=
+  { allowed := true, entry := .file, rootLoc := some (fileUrl ["r", "a", "root.json"]), rootInStore := true
+    rootFile :=
+      { parses := true, elems := [], raw := [], typed := []
+        tops := [ .mk 1 .pathItem (some (fragRef "b/d.json#/paths/~1x" ["b", "d.json"] "/paths/~1x")) [] ] }
+    store :=
+      [ (fileUrl ["r", "a", "b", "d.json"],
+          { parses := true, elems := [], raw := []
+            tops := [ .mk 1 .pathItem (some (fragRef "../c/e.json#/paths/~1y" ["..", "c", "e.json"] "/paths/~1y")) [] ]
+            typed := [("/paths/~1x", .mk 1 .pathItem (some (fragRef "../c/e.json#/paths/~1y" ["..", "c", "e.json"] "/paths/~1y")) [])] }),
+        (fileUrl ["r", "a", "c", "e.json"],
+          { parses := true, elems := [], raw := []
+            tops := [ .mk 1 .pathItem none [ .mk 2 .parameter (some (wholeRef "p.json" ["p.json"])) [] ] ]
+            typed := [("/paths/~1y", .mk 1 .pathItem none [ .mk 2 .parameter (some (wholeRef "p.json" ["p.json"])) [] ])] }),
+        (fileUrl ["r", "a", "c", "p.json"], leafFile) ] }
+
+example : ¬ ForeignBase x4 16 ∧
+    (load x4 16).1.log = [fileUrl ["r", "a", "root.json"], fileUrl ["r", "a", "b", "d.json"],
+                          fileUrl ["r", "a", "c", "e.json"], fileUrl ["r", "a", "c", "p.json"]] ∧
+    (load x4 16).2 = true := by decide
+
 /-- a multi-file load with the switch on: chain root → /r/b/d.json#/components/schemas/A → "s.json" (whole file,
     resolved against /r/b/), all bases aligned -/
 def x1 : Input :=
   { allowed := true, entry := .file, rootLoc := some (fileUrl ["r", "a", "root.json"]), rootInStore := true
     rootFile :=
-      { parses := true, elem := [], raw := [], typed := []
+      { parses := true, elems := [], raw := [], typed := []
         tops := [ .mk 1 .schema (some (fragRef "../b/d.json#/components/schemas/A" ["..", "b", "d.json"] "/components/schemas/A")) [] ] }
     store :=
       [ (fileUrl ["r", "b", "d.json"],
-          { parses := true, elem := [], raw := []
+          { parses := true, elems := [], raw := []
             tops := [ .mk 1 .schema none [ .mk 2 .schema (some (wholeRef "s.json" ["s.json"])) [] ] ]
             typed := [("/components/schemas/A", .mk 1 .schema none [ .mk 2 .schema (some (wholeRef "s.json" ["s.json"])) [] ])] }),
         (fileUrl ["r", "b", "s.json"], leafFile) ] }
@@ -195,6 +336,27 @@ example : (load { x1 with allowed := false } 16).1.log = [fileUrl ["r", "a", "ro
 /-- the raw re-read of the current document (dangling '#'-reference) with the switch off: the root is read twice -/
 example : (load { x1 with allowed := false, rootFile := { x1.rootFile with tops := [ .mk 1 .schema (some (hashRef "/components/schemas/Nope")) [] ] } } 16).1.log
     = [fileUrl ["r", "a", "root.json"], fileUrl ["r", "a", "root.json"]] := by decide
+
+/-- non-vacuity: an absolute location read twice reaches the wrapped reader once, a relative file path every time -/
+example : cacheFilter x1 [] [fileUrl ["r", "a", "root.json"], fileUrl ["r", "a", "root.json"], ⟨"", "", false, ["rel.json"]⟩, ⟨"", "", false, ["rel.json"]⟩]
+    = [fileUrl ["r", "a", "root.json"], ⟨"", "", false, ["rel.json"]⟩, ⟨"", "", false, ["rel.json"]⟩] := by decide
+
+/-- a single-directory universe: root → "d.json#/components/schemas/A" → "s.json", all in /r/a/ -/
+def x5 : Input :=
+  { allowed := true, entry := .file, rootLoc := some (fileUrl ["r", "a", "root.json"]), rootInStore := true
+    rootFile :=
+      { parses := true, elems := [], raw := [], typed := []
+        tops := [ .mk 1 .schema (some (fragRef "d.json#/components/schemas/A" ["d.json"] "/components/schemas/A")) [] ] }
+    store :=
+      [ (fileUrl ["r", "a", "d.json"],
+          { parses := true, elems := [], raw := []
+            tops := [ .mk 1 .schema none [ .mk 2 .schema (some (wholeRef "s.json" ["s.json"])) [] ] ]
+            typed := [("/components/schemas/A", .mk 1 .schema none [ .mk 2 .schema (some (wholeRef "s.json" ["s.json"])) [] ])] }),
+        (fileUrl ["r", "a", "s.json"], leafFile) ] }
+
+/-- non-vacuity of the uniform theorems: a three-file universe in one directory is uniform (three reads); the
+    witnesses of F-C11-1 are not uniform -/
+example : Uniform x5 ∧ (load x5 16).1.log.length = 3 ∧ ¬ Uniform x0 ∧ ¬ Uniform x3 := by decide
 
 /-- path algebra: "../b/p.json" against /r/a/root.json -/
 example : resolvePath (some (fileUrl ["r", "a", "root.json"])) ⟨"", "", false, ["..", "b", "p.json"]⟩
@@ -213,13 +375,13 @@ theorem readsites_recognised : ∀ r ∈ readSites, r.callee ≠ "unrecognised" 
 open KinModel.Gen in
 /-- The reader is reached only (1) from `loadFromURIInternal` with its own parameter, (2) from
 `loadSingleElementFromURI` after the unconditional top-level guard, with the location resolved from the
-reference, (3) from `resolveComponent` re-reading its own parameter `path`; the overridable reader and the
-default reader are called from `readURL` only. -/
+reference, (3) from `resolveComponent` re-reading `componentPath` (see `component_path_origin`); the overridable
+reader and the default reader are called from `readURL` only. -/
 theorem every_nonroot_read_guarded : ∀ r ∈ readSites,
     (r.callee = "readURL" →
       (r.fn = "loadFromURIInternal" ∧ r.arg = "location" ∧ r.argIsParam = true) ∨
       (r.fn = "loadSingleElementFromURI" ∧ r.guard = "allowsExternalRefs" ∧ r.arg = "resolvedPath") ∨
-      (r.fn = "resolveComponent" ∧ r.arg = "path" ∧ r.argIsParam = true)) ∧
+      (r.fn = "resolveComponent" ∧ r.arg = "componentPath")) ∧
     ((r.callee = "ReadFromURIFunc" ∨ r.callee = "DefaultReadFromURI") → r.fn = "readURL") := by decide
 
 open KinModel.Gen in
@@ -241,6 +403,34 @@ theorem document_loads_guarded : ∀ r ∈ readSites,
   decide
 
 open KinModel.Gen in
+/-- The location `resolveComponent` reads again is its `componentPath`, assigned exactly once, by the call of
+`resolveRefAndDocument(doc, ref, path)` with the function's own unassigned parameter `path`; and
+`resolveRefAndDocument` returns as location either that parameter (inside the '#'-prefix block), `nil` next to an
+error, or `resolvedPath`, assigned once by `resolveRef` behind the '#'-prefix return — the location it has just passed
+to `loadFromURIInternal` (`document_loads_guarded`).  So the re-read is a second read of the caller's `documentPath`
+or of the document loaded a moment ago: the model's `drill`. -/
+theorem component_path_origin : ∀ r ∈ readSites,
+    (r.fn = "resolveComponent" ∧ r.callee = "readURL" → r.arg = "componentPath" ∧ r.argAssigns = 1) ∧
+    (r.fn = "resolveComponent" ∧ r.callee = "resolveRefAndDocument" →
+      r.lhs = "componentPath" ∧ r.arg = "path" ∧ r.argIsParam = true ∧ r.guard = "") ∧
+    (r.fn = "resolveRefAndDocument" ∧ r.callee = "return" →
+      (r.guard = "in-hash-return" ∧ r.arg = "path" ∧ r.argIsParam = true) ∨ (r.guard = "in-err" ∧ r.arg = "nil") ∨
+      (r.guard = "hash-return;resolveRef" ∧ r.arg = "resolvedPath" ∧ r.argAssigns = 1)) := by decide
+
+open KinModel.Gen in
+/-- The other functions that hand a location back return `nil` next to an error, or the one location they computed
+behind their guards (`resolveRefPath` inside its '#'-prefix block: a copy of the caller's path, used for `RefPath`
+only — `resolveRef` is called behind the '#'-prefix return of `resolveRefAndDocument`). -/
+theorem returned_locations : ∀ r ∈ readSites,
+    (r.fn = "resolveRef" ∧ r.callee = "return" →
+      (r.guard = "in-err" ∧ r.arg = "nil") ∨ (r.guard = "" ∧ r.arg = "resolvedPathRef" ∧ r.argAssigns = 1)) ∧
+    (r.fn = "resolveRefPath" ∧ r.callee = "return" →
+      r.guard = "in-hash-return" ∨ (r.guard = "in-err" ∧ r.arg = "nil") ∨
+      (r.guard = "hash-return;allowsExternalRefs" ∧ r.arg = "resolvedPath" ∧ r.argAssigns = 1)) ∧
+    (r.fn = "loadSingleElementFromURI" ∧ r.callee = "return" →
+      r.arg = "nil" ∨ (r.guard = "allowsExternalRefs" ∧ r.arg = "resolvedPath" ∧ r.argAssigns = 1)) := by decide
+
+open KinModel.Gen in
 /-- the guards exist: both guarded functions call `allowsExternalRefs` -/
 theorem guards_present :
     (∃ r ∈ readSites, r.callee = "allowsExternalRefs" ∧ r.fn = "loadSingleElementFromURI") ∧
@@ -255,12 +445,12 @@ def kindOfResolver (fn : String) : Option Kind :=
 
 open KinModel.Gen in
 /-- The ten resolvers call `loadSingleElementFromURI(ref, documentPath, …)` and `resolveComponent(doc, ref,
-documentPath, …)` with their own `documentPath`, and assign the returned location to `documentPath` exactly for
-the kinds for which the model does (`Kind.updatesPath`). -/
+documentPath, …)` with their own `documentPath`, and ALL TEN assign the location returned by
+`loadSingleElementFromURI` to `documentPath` (since 0a3c233; the model's whole-file branch does so for every kind);
+only the path-item resolver re-assigns `documentPath` from `resolveComponent`. -/
 theorem resolver_sites_agree_with_model : ∀ r ∈ readSites,
     (r.callee = "loadSingleElementFromURI" →
-      r.arg = "documentPath" ∧ (r.lhs = "documentPath" ∨ r.lhs = "_") ∧
-      (kindOfResolver r.fn).map Kind.updatesPath = some (decide (r.lhs = "documentPath"))) ∧
+      r.arg = "documentPath" ∧ r.lhs = "documentPath" ∧ (kindOfResolver r.fn).isSome = true) ∧
     (r.callee = "resolveComponent" → r.arg = "documentPath" ∧ (kindOfResolver r.fn).isSome = true ∧
       (r.lhs = "componentPath" ∨ (r.fn = "resolvePathItemRef" ∧ r.lhs = "documentPath"))) := by decide
 
@@ -276,5 +466,27 @@ theorem resolver_sites_complete :
     (readSites.filter (fun r => r.callee == "loadSingleElementFromURI")).length = 10 ∧
     (readSites.filter (fun r => r.callee == "resolveComponent")).length = 10 ∧
     (readSites.filter (fun r => r.callee == "readURL")).length = 3 := by decide
+
+/-! ### the walked positions and their order, regenerated from openapi3/loader.go (tie T) -/
+
+open KinModel.Gen in
+theorem walksites_recognised : ∀ r ∈ walkSites, r.callee ≠ "unrecognised" := by decide
+
+open KinModel.Gen in
+/-- The positions `ResolveRefsIn`, the ten resolvers and the two shared walkers visit, in source order, are exactly
+the ones the harness encodes as the order of a node's `kids` (`expectedWalk` in KinModel/Reads.lean, mirrored by
+c11ChildKind / c11OrderKey in go/cmd/harness/c11.go).  A new, removed or re-ordered position in the source breaks this
+obligation (that is how cbb0d05 shows up statically). -/
+theorem walk_sites_as_modelled :
+    walkSites.map (fun r => (r.fn, r.callee, r.arg, r.loops)) = expectedWalk := by decide
+
+open KinModel.Gen in
+/-- Every sub-element is resolved with the resolver's current `documentPath` (`location` in `ResolveRefsIn`) — the
+model's `walk … cx` — and the only calls with another location are the recursive calls on the copy `&resolved`,
+which pass `componentPath` (for a path item the re-assigned `documentPath`) — the model's `⟨cdoc, cpath⟩`. -/
+theorem walk_location_args : ∀ r ∈ walkSites,
+    (r.arg ≠ "&resolved" → r.locArg = (if r.fn = "ResolveRefsIn" then "location" else "documentPath")) ∧
+    (r.arg = "&resolved" → r.callee = r.fn ∧
+      r.locArg = (if r.fn = "resolvePathItemRef" then "documentPath" else "componentPath")) := by decide
 
 end KinModel.Reads
